@@ -214,6 +214,15 @@ PROPS = {
                 trusted_base=["spec/certs.py", "spec/pubkeys_ext.py", "spec/regex_ext.py", "spec/cstruct.py", "spec/hash_ext.py"],
                 explanation="normal return of do_verify_attestation implies: both chains valid for the chosen root (C06's specification; SGX: assumed verdict + self-validating root), documented headers, "
                             "exact powHSM length, keys hash = SHA-256 of the operator's keys in path order, UI key = operator's key; the lines handed to head() hold the slices at the documented offsets"),
+    "C15": dict(level="other", assumptions=COMMON + ["scope: ONLY the gathering side of the Ledger path, function by function - HSM2Dongle.get_ui_attestation (pages reassembled in order, "
+                                                      "answers verbatim) and admin/ledger_attestation.do_attestation (the certificate handed to save_to_jsonfile carries the device's "
+                                                      "answers as elements ui / signer certified by attestation, with exactly those two targets).  The end-to-end statement of C15 - files "
+                                                      "written by one command are accepted by another with the device's values, and any alteration is refused - is a whole-history property "
+                                                      "and is NOT decided: its verification side is what C06 / C07 / C08 / C16 state about the individual functions",
+                                                      "assumed contracts: get_powhsm_attestation (paging with legacy framing not verified), get_ud_value_for_attestation, "
+                                                      "HSMCertificate.from_jsonfile, save_to_jsonfile; onboarding's endorsement set-up, the SGX envelope path and dongle_admin are not under contract"],
+                trusted_base=TB + ["spec/certs.py"],
+                explanation="wiring of device answers into the certificate, as assertions at the save call site; paging loop unrolled with an unwinding assertion"),
     "C13": dict(level="proof", assumptions=COMMON + [A_FW], trusted_base=TB + ["spec/firmware.py"],
                 explanation="reply fields are equated with the answers recorded in the ghost log, selectors from the firmware headers"),
 }
